@@ -516,7 +516,13 @@ def collapse_cells_rule(ck, fb):
     dc = [(b, i) for b, i, x in f.nodes(("call",)) if x.get("pn", "").endswith("::delete_cell") and b in f.reach()]
     ac = [(b, i) for b, i, x in f.nodes(("call",)) if x.get("pn", "").endswith("::add_cell") and b in f.reach()]
     oke = len(dv) == 1 and bool(dc) and bool(ac) and all(f.dominates(dv[0], p_) for p_ in ac) and not any(f.dominates(dv[0], p_) for p_ in dc)
-    (ck.ok if oke else lambda r_, w_, t_: ck.violate(r_, w_, t_, "C15.collapse:steps"))("C15.collapse", f.where, "old cells are deleted before delete_vertex(a), new cells are added after it (%d/%d/%d sites)" % (len(dc), len(dv), len(ac)))
+    if oke:
+        ck.ok("C15.collapse", f.where, "old cells are deleted before delete_vertex(a), new cells are added after it (%d/%d/%d sites)" % (len(dc), len(dv), len(ac)))
+    elif len(dv) == 1 and dc and ac:
+        # with deletion deferred, another order of the three steps can give the same mesh: not a clause of the statement
+        ck.cannot_judge("C15.collapse %s: delete_cell / delete_vertex(a) / add_cell occur in another order - not judged" % f.where)
+    else:
+        ck.violate("C15.collapse", f.where, "collapse_edge deletes the old cells, deletes a and adds the rebuilt cells (%d/%d/%d sites)" % (len(dc), len(dv), len(ac)), "C15.collapse:steps")
 
 
 def opposite_rule(ck, fb):
